@@ -46,6 +46,45 @@ def fn_scale(x, factor: float = 2.0):
 
 
 @onnx_function
+def fn_gain(x, gain=1):
+    """The TYPE of the keyword matters (int32 arithmetic wraps, float does not): gain=1, 1.0 and True
+    are equal and hash-equal in Python but are three different functions."""
+    xi = (x * 8.0).astype(jnp.int32)
+    z = xi * gain * 400000000
+    return z.astype(x.dtype) * 1e-9
+
+
+@onnx_function
+def Relu(x):
+    """Deliberately NAMED like a layout-agnostic ONNX operator; it is neither Relu nor layout-agnostic."""
+    e = jnp.exp(x - jnp.max(x, axis=-1, keepdims=True))
+    return e / jnp.sum(e, axis=-1, keepdims=True)
+
+
+@onnx_function(name="Identity")
+class NamedIdentity(nnx.Module):
+    """A decorated class exported under the name of an ONNX operator; reverses the last axis."""
+
+    def __init__(self, d: int, seed: int):
+        self.w = nnx.Param(jnp.asarray(0.5 + 0.25 * W((d,), seed)))
+
+    def __call__(self, x):
+        return jnp.cumsum(x, axis=-1) * jnp.mean(self.w.value)
+
+
+@onnx_function
+def fn_takes_det(x, deterministic=True):
+    """Plain-function target that accepts a runtime parameter its callers do not forward."""
+    return jnp.where(deterministic, x * 2.0, x * 0.5)
+
+
+@onnx_function
+def fn_no_det(x):
+    """Plain-function target that does not know that parameter."""
+    return x * 3.0 - 1.0
+
+
+@onnx_function
 def fn_gate(x, double=False, negate=False):
     """Two runtime flags (exposed through input_params)."""
     y = jnp.where(double, x * 2.0, x)
@@ -463,6 +502,63 @@ def _twins_plain():
     return lambda x: b(a(x)) + a(x)
 
 
+# programs with DEAD equations (jaxprs are not dead-code-eliminated, so the unused node reaches the
+# optimizer) that read the intermediate value of a pattern an optimizer pass rewrites
+def _dead_cast(x):
+    wide = x.astype(jnp.int32)
+    _peak = jnp.max(wide)  # noqa: F841  (unused on purpose)
+    return wide.astype(jnp.int16) + jnp.int16(1)
+
+
+def _dead_transpose(x):
+    t = jnp.transpose(x, (1, 0))
+    _d = jnp.sum(t)  # noqa: F841
+    return jnp.transpose(t, (1, 0)) * 2.0
+
+
+def _dead_reshape(x):
+    r = jnp.reshape(x, (2, 6))
+    _d = jnp.max(r)  # noqa: F841
+    return jnp.reshape(r, (3, 4)) + 1.0
+
+
+def _dead_swish(x):
+    s = jax.nn.sigmoid(x)
+    _d = jnp.sum(s)  # noqa: F841
+    return x * s
+
+
+def _dead_rsqrt(x):
+    r = lax.rsqrt(x * x + 2.0)
+    _d = jnp.min(r)  # noqa: F841
+    return x * r
+
+
+def _dead_chain(x):
+    a = jnp.tanh(x)
+    _d = jnp.sum(jnp.exp(a) * 2.0)  # noqa: F841  (a dead chain of three nodes)
+    return a + 1.0
+
+
+BUILDERS["dead_cast"] = lambda: _p("dead_cast", _dead_cast, [(3, 4)], dtypes=[np.int16])
+BUILDERS["dead_transpose"] = lambda: _p("dead_transpose", _dead_transpose, [(3, 4)])
+BUILDERS["dead_reshape"] = lambda: _p("dead_reshape", _dead_reshape, [(3, 4)])
+BUILDERS["dead_swish"] = lambda: _p("dead_swish", _dead_swish, [(3, 4)])
+BUILDERS["dead_rsqrt"] = lambda: _p("dead_rsqrt", _dead_rsqrt, [(3, 4)])
+BUILDERS["dead_chain"] = lambda: _p("dead_chain", _dead_chain, [(3, 4)])
+_GATHER_IDX = np.array([[0], [2]], np.int32)
+
+
+def _gather_const_idx(x):
+    # gather whose indices are a constant run through a foldable primitive chain
+    i = lax.rev(jnp.asarray(_GATHER_IDX), (0,))
+    dn = lax.GatherDimensionNumbers(offset_dims=(1,), collapsed_slice_dims=(0,), start_index_map=(0,))
+    return lax.gather(x, i, dn, slice_sizes=(1, 4))
+
+
+BUILDERS["gather_const_idx"] = lambda: _p("gather_const_idx", _gather_const_idx, [(5, 4)])
+BUILDERS["implicit_fn_a"] = lambda: _p("implicit_fn_a", lambda x, **kw: fn_takes_det(x) + 1.0, [(2, 4)], input_params={"deterministic": True})
+BUILDERS["implicit_fn_b"] = lambda: _p("implicit_fn_b", lambda x, **kw: fn_no_det(x) + 1.0, [(2, 4)], input_params={"deterministic": True})
 BUILDERS["named_io"] = lambda: _p("named_io", lambda x, y: (x + y, x * y), [(3, 4), (3, 4)], input_names=["lhs", "rhs"], output_names=["sum", "prod"])
 # float16 programs (narrower than the export's default float)
 BUILDERS["f16_elementwise"] = lambda: _p("f16_elementwise", lambda x, y: x * y + x, [(3, 4), (3, 4)], dtypes=[np.float16, np.float16])
